@@ -58,6 +58,10 @@ def body(c):
         "warning callbacks are not constrained; any non-warning callback on a "
         "successful call is a mismatch",
     ]
+    if stats.get("gave_up"):
+        c.assumptions.append(
+            "%d driver shard(s) stopped after 40 crashes: part of the planned "
+            "cases was not executed in this run" % stats["gave_up"])
 
 
 def main(argv):
